@@ -1,0 +1,16 @@
+//go:build verif
+
+package upstream
+
+import "net/http"
+
+// VerifTransport, when set, supplies the round tripper used for every upstream
+// (verification builds only).
+var VerifTransport func(h2c bool) http.RoundTripper
+
+func verifTransport(h2c bool) http.RoundTripper {
+	if VerifTransport == nil {
+		return nil
+	}
+	return VerifTransport(h2c)
+}
